@@ -1,5 +1,7 @@
-"""C14  Load collectives and histograms account for every cycle exactly once (the clauses that are
-executed as Python/pandas code; numpy.histogram/histogram2d are C code on float64 and not claimed)."""
+"""C14  Load collectives and histograms account for every cycle exactly once.
+
+numpy.histogram / numpy.histogram2d are Python code over sort / searchsorted / comparison loops; on object arrays those
+loops call the symbolic values' comparison operators, so the histogram clauses run through the real numpy code too."""
 import itertools
 import math
 import warnings
@@ -23,28 +25,36 @@ ENCODED = ["pylife.stress.collective.load_collective:LoadCollective._validate",
            "pylife.stress.collective.load_collective:LoadCollective.cycles",
            "pylife.stress.collective.load_collective:LoadCollective.scale",
            "pylife.stress.collective.load_collective:LoadCollective.shift",
+           "pylife.stress.collective.load_collective:LoadCollective.range_histogram",
+           "pylife.stress.collective.load_collective:LoadCollective.histogram",
+           "numpy.lib._histograms_impl:histogram", "numpy.lib._histograms_impl:histogramdd",
            "pylife.utils.histogram:rebin_histogram", "pylife.utils.histogram:_do_rebin_histogram",
            "pylife.utils.histogram:_fail_if_binning_invalid", "pylife.utils.histogram:combine_histogram"]
-STUBS = []
+STUBS = ["pandas.IntervalIndex.from_breaks: an object-dtype array that holds only plain floats (numpy's result type for class limits computed next to symbolic data) is converted to float64 first"]
 ASSUMPTIONS = ["floats are modelled as reals",
                "histogram clauses: counts are symbolic and >= 0; totals and compositions are compared with a tolerance of 1e-12 of the total count (overlap fractions are float constants); identity and combine clauses are exact",
                "histogram clauses: counts are symbolic, bin edges concrete (IntervalIndex is float64-backed) and "
                "enumerated from the dyadic grid {0, 0.5, 1, 2, 3, 4}",
                "R = lower/upper with the IEEE cases of the implementation: upper == 0 gives -inf for lower < 0 and "
                "the documented fill value 0 for 0/0"]
-OUTSIDE = ("np.histogram / np.histogram2d based clauses (range_histogram, histogram, recorder histograms); symbolic "
-           "bin edges; collectives with more rows than the bound; extra index levels")
+OUTSIDE = ("recorder histograms (LoopValueRecorder.histogram); histogramming along an axis (groupby); symbolic bin edges "
+           "(IntervalIndex is float64-backed; for a number of bins the rows that fix the data span are therefore concrete); "
+           "collectives with more rows than the bound; which of two adjacent classes receives a cycle exactly on their "
+           "common limit (the property leaves it open)")
 RULE = ("one evaluation = one explored path; collective cases: sign/order pattern of from/to per row; histogram "
         "cases: one (source binning, target binning) pair with symbolic counts; distinct = distinct case and path "
         "signature; non-trivial = every path")
 LABELS = ["rebin.source_order_independent", "rebin.target_level_order_independent", "coll.upper_lower_amplitude", "coll.mean", "coll.R", "coll.cycles", "coll.range_mean_equiv",
           "coll.scale", "coll.shift", "rebin.total", "rebin.identity", "rebin.compose", "combine.total",
-          "combine.per_bin"]
+          "combine.per_bin", "hist.total", "hist.one_class", "hist.classes", "hist.marginal"]
 GRID = [0.0, 0.5, 1.0, 2.0, 3.0, 4.0]
 
 
 def bounds(tier):
     return {"collective_rows": "1..%d" % (2 if tier == "quick" else 3),
+            "histogrammed_rows": ("1 row: edge lists / IntervalIndex / IntervalArray of 1..%d classes; 2 rows: %s; %s"
+                                  "number of bins 1..3: 2 concrete + 1..%d symbolic rows")
+                                 % ((2, "one class, edge list", "", 1) if tier == "quick" else (3, "1..2 classes, every form", "3 rows: one class, edge list; ", 2)),
             "binnings": "all gap-free binnings with 1..%d classes on the grid %s; integer binnings 1..3"
                         % (2 if tier == "quick" else 4, GRID)}
 
@@ -66,6 +76,32 @@ def cases(tier):
             out.append({"kind": "rangemean", "m": m, "cycles": cyc, "_weight": 9 ** m})
         out.append({"kind": "scale", "m": m, "_weight": 9 ** m * 3})
         out.append({"kind": "shift", "m": m, "_weight": 9 ** m})
+    # histogramming of a collective: explicit class limits in every form, and a number of classes
+    hb = [[0.0, 4.0], [1.0, 2.0], [0.0, 1.0, 3.0], [0.5, 2.0, 4.0]] + ([] if q else [[0.0, 0.5, 2.0, 4.0], [1.0, 2.0, 3.0, 4.0]])
+    for m in range(1, (2 if q else 3) + 1):
+        for edges in hb:
+            for spec in ("edges", "interval_index", "interval_array"):
+                for layout in ("unique", "repeated_labels"):
+                    if layout == "repeated_labels" and (m == 1 or spec != "edges"):
+                        continue
+                    # the number of paths grows like (classes * 7) ** (2 * rows): the larger row counts only with one class
+                    if m >= 2 and len(edges) > 2 and (q or m > 2):
+                        continue
+                    if m >= 2 and q and spec != "edges":
+                        continue
+                    if m >= 3 and (spec != "edges" or edges != hb[0] or layout != "unique"):
+                        continue
+                    c = {"kind": "hist", "m": m, "edges": edges, "spec": spec, "layout": layout, "_weight": (3 * len(edges)) ** (2 * m)}
+                    if m >= 2:
+                        c["_split"] = 4 if m == 2 else 7
+                    out.append(c)
+    for m in range(1, (1 if q else 2) + 1):
+        for nb in (1, 2, 3):
+            for span in (((0.0, 1.0), (3.0, -1.0)), ((-2.0, -2.0), (1.0, 5.0))):
+                c = {"kind": "hist_count", "m": m, "bins": nb, "span": [list(x) for x in span], "_weight": (3 * nb) ** (2 * m)}
+                if m >= 2:
+                    c["_split"] = 4
+                out.append(c)
     bs = _binnings(2 if q else 4)
     rng = np.random.default_rng(14)
     pairs = []
@@ -129,6 +165,12 @@ def _apply_canary(ctx):
         ctx.patch(HI, "combine_histogram",
                   mutated(HI.combine_histogram, "combined = concat.groupby(concat.index).agg(method)",
                           "combined = concat.groupby(concat.index).agg('first' if method == 'sum' else method)"))
+    elif cn == "range_histogram_of_amplitudes":
+        ctx.patch(LC.LoadCollective, "range_histogram",
+                  mutated(LC.LoadCollective.range_histogram, "np.histogram(group * 2., bins)", "np.histogram(group, bins)"))
+    elif cn == "mean_classes_labelled_with_range_limits":
+        ctx.patch(LC.LoadCollective, "histogram",
+                  mutated(LC.LoadCollective.histogram, "pd.IntervalIndex.from_breaks(mean_bins)", "pd.IntervalIndex.from_breaks(range_bins)"))
     elif cn is not None:
         raise RuntimeError("unknown canary " + cn)
 
@@ -138,8 +180,10 @@ CANARIES = [
     {"name": "amplitude_not_abs", "cases": [{"kind": "fromto", "m": 1, "cycles": False}]},
     {"name": "shift_also_cycles", "cases": [{"kind": "shift", "m": 1}]},
     {"name": "combine_first_only", "cases": [{"kind": "combine", "pairs": [([0.0, 1.0, 2.0], [0.0, 1.0, 4.0])]}]},
+    {"name": "range_histogram_of_amplitudes", "cases": [{"kind": "hist", "m": 1, "edges": [0.0, 1.0, 3.0], "spec": "edges", "layout": "unique"}]},
+    {"name": "mean_classes_labelled_with_range_limits", "cases": [{"kind": "hist_count", "m": 1, "bins": 2, "span": [[0.0, 1.0], [3.0, -1.0]]}]},
 ]
-QUICK_CANARIES = 4
+QUICK_CANARIES = 6
 
 
 def _col(ctx, vals):
@@ -188,6 +232,10 @@ def run(ctx, case):
     kind = case["kind"]
     if kind in ("fromto", "rangemean", "scale", "shift"):
         return _run_collective(ctx, case)
+    if kind in ("hist", "hist_count"):
+        with warnings.catch_warnings():
+            warnings.simplefilter("ignore")
+            return _run_hist(ctx, case)
     with warnings.catch_warnings():
         warnings.simplefilter("ignore")
         if kind == "rebin":
@@ -300,6 +348,112 @@ def run(ctx, case):
                 outs.append(list(r))
             return outs
     raise RuntimeError("unknown kind")
+
+
+def _count(conds):
+    t = 0
+    for c in conds:
+        t = t + s_ite(c, 1, 0)
+    return t
+
+
+def _levels(result, names):
+    """class limits per level of a histogram result, and per row of the result the tuple of (left, right) per level"""
+    idx = result.index
+    if isinstance(idx, pd.MultiIndex):
+        keys = [tuple((float(iv.left), float(iv.right)) for iv in (k[idx.names.index(n)] for n in names)) for k in idx]
+    else:
+        keys = [((float(iv.left), float(iv.right)),) for iv in idx]
+    return keys
+
+
+def _check_hist(ctx, result, coords, names, given, what):
+    """result: histogram Series; coords[i] = tuple of the coordinates of cycle i for the levels in `names`;
+    given: the class limits that were asked for per level (None: a number of classes, limits chosen by numpy)."""
+    keys = _levels(result, names)
+    counts = [result.iloc[i] for i in range(len(result))]
+    nlev = len(names)
+    lims = []
+    for lv in range(nlev):
+        cl = sorted(set(k[lv] for k in keys))
+        ok = all(cl[i][1] == cl[i + 1][0] for i in range(len(cl) - 1)) and all(a < b for a, b in cl)
+        ctx.claim(ok, "hist.classes", (what, names[lv], "classes are not a gap-free sequence", cl))
+        if given is not None and given[lv] is not None:
+            ctx.claim(cl == [(given[lv][i], given[lv][i + 1]) for i in range(len(given[lv]) - 1)], "hist.classes",
+                      (what, names[lv], "class limits differ from the requested ones", cl, given[lv]))
+        lims.append((cl[0][0], cl[-1][1]))
+    nclass = 1
+    for lv in range(nlev):
+        nclass *= len(set(k[lv] for k in keys))
+    ctx.claim(len(keys) == nclass and len(set(keys)) == nclass, "hist.classes", (what, "not one row per class", keys))
+    inside = [sym_and(*[sym_and(lims[lv][0] <= c[lv], c[lv] <= lims[lv][1]) for lv in range(nlev)]) for c in coords]
+    tot = 0
+    for v in counts:
+        tot = tot + v
+    ctx.claim(s_eq(tot, _count(inside)), "hist.total", (what, "sum of the class counts", tot, "cycles inside", counts))
+    for k, v in zip(keys, counts):
+        closure = [sym_and(*[sym_and(k[lv][0] <= c[lv], c[lv] <= k[lv][1]) for lv in range(nlev)]) for c in coords]
+        interior = [sym_and(*[sym_and(k[lv][0] < c[lv], c[lv] < k[lv][1]) for lv in range(nlev)]) for c in coords]
+        ctx.claim(sym_and(v <= _count(closure), v >= _count(interior)), "hist.one_class", (what, "class", k, "count", v))
+    return keys, counts, lims
+
+
+def _concrete_breaks(orig):
+    def from_breaks(breaks, *a, **kw):
+        if isinstance(breaks, np.ndarray) and breaks.dtype == object and all(isinstance(v, (int, float, np.floating, np.integer)) for v in breaks):
+            breaks = breaks.astype(np.float64)     # an object array of plain floats (numpy's result type next to symbolic data)
+        return orig(breaks, *a, **kw)
+    return from_breaks
+
+
+def _run_hist(ctx, case):
+    kind, m = case["kind"], case["m"]
+    if ctx.sym:
+        ctx.patch(pd.IntervalIndex, "from_breaks", _concrete_breaks(pd.IntervalIndex.from_breaks))
+    if kind == "hist":
+        fr = [ctx.real("f%d" % i) for i in range(m)]
+        to = [ctx.real("t%d" % i) for i in range(m)]
+        edges = case["edges"]
+        ctx.hint(sym_and(*[sym_and(v >= -8, v <= 8) for v in fr + to]))
+        bins = {"edges": list(edges), "interval_index": pd.IntervalIndex.from_breaks(edges),
+                "interval_array": pd.arrays.IntervalArray.from_breaks(edges)}[case["spec"]]
+        given = [list(edges), list(edges)]
+        labels = [7] * m if case["layout"] == "repeated_labels" else [10 * i + 3 for i in range(m)]
+    else:
+        (f0, t0), (f1, t1) = case["span"]
+        fr = [f0, f1] + [ctx.real("f%d" % i) for i in range(m)]
+        to = [t0, t1] + [ctx.real("t%d" % i) for i in range(m)]
+        r0, r1 = sorted((abs(f0 - t0), abs(f1 - t1)))
+        u0, u1 = sorted(((f0 + t0) / 2, (f1 + t1) / 2))
+        for f, t in zip(fr[2:], to[2:]):
+            rg = s_max(f, t) - s_min(f, t)
+            ctx.assume(sym_and(r0 <= rg, rg <= r1, 2 * u0 <= f + t, f + t <= 2 * u1))   # the concrete rows span the data
+        bins = case["bins"]
+        given = None
+        labels = [10 * i + 3 for i in range(len(fr))]
+    n = len(fr)
+    df = pd.DataFrame({"from": _col(ctx, fr), "to": _col(ctx, to)}, index=pd.Index(labels, name="cycle_number"))
+    lc = df.load_collective
+    rng = [s_max(f, t) - s_min(f, t) for f, t in zip(fr, to)]
+    mean = [(f + t) / 2 for f, t in zip(fr, to)]
+    rh = lc.range_histogram(bins).to_pandas()
+    h2 = lc.histogram(bins).to_pandas()
+    ctx.claim(list(rh.index.names) == ["range"] and list(h2.index.names) == ["range", "mean"], "hist.classes", "level names")
+    k1, c1, l1 = _check_hist(ctx, rh, [(r,) for r in rng], ["range"], None if given is None else given[:1], "range_histogram")
+    k2, c2, l2 = _check_hist(ctx, h2, list(zip(rng, mean)), ["range", "mean"], given, "histogram")
+    ctx.signature((kind, m, str(case.get("edges", case.get("bins"))), case.get("spec"), tuple(int(v) for v in c1), tuple(int(v) for v in c2)),
+                  trivial=not any(int(v) for v in c1))
+    # marginal: with every mean inside the covered mean range the range histogram is the sum over the mean classes
+    marg = {}
+    for k, v in zip(k2, c2):
+        marg[k[0]] = marg.get(k[0], 0) + v
+    same_classes = sorted(marg) == sorted(k[0] for k in k1)
+    ctx.claim(same_classes, "hist.marginal", ("range classes differ", sorted(marg), k1))
+    if same_classes:
+        all_means_inside = sym_and(*[sym_and(l2[1][0] <= u, u <= l2[1][1]) for u in mean])
+        agree = all(float(marg[k[0]]) == float(v) for k, v in zip(k1, c1))
+        ctx.claim(sym_or(sym_not(all_means_inside), agree), "hist.marginal", (c1, [marg[k[0]] for k in k1]))
+    return {"range_histogram": [float(v) for v in c1], "histogram": [float(v) for v in c2]}
 
 
 def _run_collective(ctx, case):
